@@ -89,6 +89,9 @@ pub struct ConcSpec {
     /// explicit schedule: one execution following these choices (u32::MAX = "continue current")
     pub replay: Option<Vec<u32>>,
     pub strategy: Option<String>,
+    /// C11: the racing opens start on a directory that does not exist yet (first-time initialisation)
+    #[serde(default)]
+    pub fresh_dir: bool,
 }
 
 #[derive(Clone, Debug, Serialize, Deserialize)]
